@@ -33,7 +33,8 @@ MANIFEST = {
     "category": "proof",
 }
 
-REQUIRED = ["KV.C10.probing_accept_wellformed", "KV.C10.probing_accept_wellformed_prefixClosed", "KV.C10.parsed_core",
+REQUIRED = ["KV.C10.loader_probing_verdict_eq_build", "KV.C10.loader_probing_ok_iff_build_ok", "KV.C10.parsed_lines_sorted",
+            "KV.C10.parsed_ngramLines_keys", "KV.C10.probing_accept_wellformed", "KV.C10.probing_accept_wellformed_prefixClosed", "KV.C10.parsed_core",
             "KV.C10.trie_reject_of_buildTable_missingContext", "KV.C10.buildTable_not_ok_of_trie_reject",
             "KV.C10.duplicate_keys_of_buildTable_duplicate", "KV.C10.loader_probing_verdict_eq_build_partial", "KV.C10.tabInv_initial",
             "KV.C10.probing_accept_has_empty_bucket", "KV.C10.trie_duplicate_iff", "KV.C10.mapAndVocab_ok", "KV.C10.constants_ok", "KV.C10.accepted_wellformed", "KV.C10.build_total", "KV.C10.trie_error_iff",
